@@ -154,7 +154,7 @@ TripleLayouts == {<<a, b, c>> : a \in SmallObjs, b \in SmallObjs, c \in SmallObj
 \* quick universes
 QuickObjs == {<<KeyDom[i]>> : i \in {1, 2, 3, 5, 6}} \cup {<<K1, K3>>, <<K2, KN>>, <<KS, KM>>}
 QuickLayouts == {<<a, b>> : a \in QuickObjs, b \in QuickObjs} \cup SeqRange(Curated)
-FewLayouts == {Curated[7], Curated[13]}
+FewLayouts == {Curated[1], Curated[7], Curated[9]}
 
 LayoutSet ==
   CASE LayoutSel = "curated" -> SeqRange(Curated)
